@@ -94,6 +94,10 @@ def near_tie_cell(sc, out, qrow, genes, normalization, flatten=False, drop_level
         if not gl:
             continue
         q = np.array([qv[g] for g in gl])
+        if len(q) > 1 and np.all(q == q[0]) and q[0] != 0.0 and float(q[0]) * 8.0 != int(float(q[0]) * 8.0):
+            # constant and not dyadic on this node's genes: mean(x) != x in floats, the residual is a constant ~1e-16 and
+            # every leaf is tied at a correlation of 0 up to rounding: rounding decides the vote
+            return True
         best = {}
         for k in kids:
             cl = li + 1 if li is not None else 0
